@@ -22,21 +22,19 @@ Definition model_dump (c : case_t) : list iout := model_trace true c.1 init (map
 (* ---- concurrent histories (validation only): is there a sequential order of the recorded
    calls, consistent with their real-time order, that the model reproduces? ---- *)
 Inductive cop := COp (o : op) | CAuth (h : N).
-(* status code, transfer from/to as (subject, authority) — resources are not compared, see
-   runner/props/C05.py — and the Authorize answer (2 = not an Authorize call) *)
-Definition cres : Type := N * option (N * N) * option (N * N) * N.
+(* status code, transfer from/to (resource included: the harness numbers resources by
+   OpenResource call, which happens under the controller lock, i.e. in linearization order),
+   and the Authorize answer (2 = not an Authorize call) *)
+Definition cres : Type := N * option cstate * option cstate * N.
 (* call stamp, return stamp, call, result *)
 Definition cev : Type := N * N * cop * cres.
 Definition conc_case_t : Type := bool * list cev.
-
-Definition erase (s : option cstate) : option (N * N) :=
-  match s with Some (sj, au, _) => Some (sj, au) | None => None end.
 
 Definition cstep (shared : bool) (s : ctl) (c : cop) : ctl * cres :=
   match c with
   | COp o =>
       let '(s', ou) := step true shared s o in
-      (s', (st_code (out_st ou), erase (x_from (out_x ou)), erase (x_to (out_x ou)), 2))
+      (s', (st_code (out_st ou), x_from (out_x ou), x_to (out_x ou), 2))
   | CAuth h =>
       if existsb (N.eqb h) (c_live s)
       then (s, (0, None, None, if fst (authorize shared s h) then 1 else 0))
